@@ -12,6 +12,7 @@ import (
 	"github.com/mithrandie/csvq/lib/option"
 	"github.com/mithrandie/csvq/lib/parser"
 	"github.com/mithrandie/csvq/lib/query"
+	"github.com/mithrandie/csvq/lib/verifhook"
 
 	"github.com/urfave/cli/v2"
 )
@@ -358,6 +359,7 @@ func commandAction(fn func(ctx context.Context, c *cli.Context, proc *query.Proc
 			sig := <-ch
 			signalReceived = query.NewSignalReceived(sig)
 			cancel()
+			verifhook.Cancelled()
 		}()
 
 		// Run preload commands
